@@ -1,7 +1,7 @@
 (* C14 — INCLUDE only reads inside the project and include cycles are errors.
    Statements only; proofs are in Proofs/C14Proofs.v.  [IncludeName.include_checks] is
    regenerated from core/include.go validateIncludeFileName on every run. *)
-From JS Require Import Base Bytes Scanner Directive Core C14Proofs.
+From JS Require Import Base Bytes Scanner Directive Core C14Proofs IncludeRoundTrip IncludeAcyclic.
 From JS Require IncludeName ScannerProg.
 
 (* for EVERY byte string: a name that passes validation does not start with '/', contains no
@@ -47,6 +47,23 @@ Theorem C14_stack_names_distinct :
     NoDup (stack_names st1) /\ valid_ids st1.
 Proof. exact include_stack_distinct. Qed.
 
+(* CYCLES ARE NEVER OPEN: in every state a run of scanProject passes through - any file system, any
+   oracle, any include tree, any number of steps (a lexeme through JApiCore.next, an accepted
+   INCLUDE, the end of an included file) - the files suspended on the scanner stack are pairwise
+   distinct and every file id is valid: the INCLUDE that would close a cycle is refused *)
+Theorem C14_suspended_files_are_always_distinct :
+  forall fs olen root_name root_content st,
+    reachable fs olen root_name root_content st ->
+    valid_ids st /\ NoDup (stack_names st).
+Proof. exact suspended_files_are_always_distinct. Qed.
+
+Theorem C14_no_file_is_suspended_twice :
+  forall fs olen root_name root_content st it1 it2 before between after,
+    reachable fs olen root_name root_content st ->
+    cs_stack st = before ++ it1 :: between ++ it2 :: after ->
+    file_name st (si_file it1) <> file_name st (si_file it2).
+Proof. exact no_file_is_suspended_twice. Qed.
+
 (* non-vacuity: "sub/a.jst" passes validation, ".." and "a/../b" do not *)
 Example C14_nonvacuous :
   validate_include IncludeName.include_checks (bytes_of_string "sub/a.jst") = Some None /\
@@ -58,3 +75,5 @@ Print Assumptions C14_validated_name_is_safe.
 Print Assumptions C14_resolved_path_is_confined.
 Print Assumptions C14_access_log.
 Print Assumptions C14_stack_names_distinct.
+Print Assumptions C14_suspended_files_are_always_distinct.
+Print Assumptions C14_no_file_is_suspended_twice.
